@@ -161,6 +161,7 @@ func (c *runnerCfg) runWorld(w *World, budget time.Duration, tmp string, gomaxpr
 				"VERIF_WALL_MS="+strconv.Itoa(int(budget/time.Millisecond)),
 				"VERIF_MAXRUNS="+strconv.Itoa(maxRuns),
 				"VERIF_TIER="+c.tier,
+				"VERIF_ROOT="+c.root,
 				"VERIF_OUT="+op,
 			)
 			if keepHashes {
@@ -305,8 +306,18 @@ func RunnerMain() int {
 	unknown := map[vkey][]*RunResult{}
 	tainted := 0
 	for _, o := range outs {
+		for key, n := range o.agg.Known {
+			parts := strings.SplitN(key, " ", 2)
+			if k := matchKnown(known, c.prop, Violation{Rule: parts[0], Feature: parts[1]}); k != nil {
+				knownSeen[fmt.Sprintf("property=%s rule=%s feature=%s %s", c.prop, k.Rule, k.Feature, k.Text)] += n
+			}
+		}
+		tainted += o.agg.KnownRuns
 		for _, r := range o.failing {
-			v, _ := r.Failing()
+			v, _ := r.FailingUnknown(known, c.prop)
+			if v.Rule == "" {
+				v, _ = r.Failing()
+			}
 			for _, n := range r.Notes {
 				if strings.HasPrefix(n, "NONDETERMINISM") {
 					trouble = append(trouble, fmt.Sprintf("%s world=%s seed=%d", n, r.World, r.Seed))
@@ -357,6 +368,15 @@ func RunnerMain() int {
 		return fmt.Sprint(keys[i]) < fmt.Sprint(keys[j])
 	})
 	reported := 0
+	if os.Getenv("VERIF_NOSHRINK") != "" {
+		for _, k := range keys {
+			v, _ := unknown[k][0].Failing()
+			fmt.Printf("DEV world=%s rule=%s feature=%s runs=%d seed=%d :: %s\n", k.world, k.rule, k.feature, len(unknown[k]), unknown[k][0].Seed, firstLine(v.Detail))
+			violations += len(unknown[k])
+			exit = 1
+		}
+		keys = nil
+	}
 	for _, k := range keys {
 		rs := unknown[k]
 		violations += len(rs)
@@ -369,7 +389,7 @@ func RunnerMain() int {
 		path, status := c.shrinkAndConfirm(rs[0], tmp)
 		switch status {
 		case "confirmed":
-			v, _ := rs[0].Failing()
+			v, _ := rs[0].FailingUnknown(known, c.prop)
 			fmt.Printf("VIOLATION property=%s replay=%s\n", c.prop, path)
 			fmt.Printf("  rule=%s feature=%s world=%s seed=%d (%d failing runs)\n  %s\n", v.Rule, v.Feature, rs[0].World, rs[0].Seed, len(rs), firstLine(v.Detail))
 			exit = 1
@@ -449,7 +469,10 @@ func (c *runnerCfg) confirmCrash(world string, seed uint64, output string, tmp s
 }
 
 func (c *runnerCfg) shrinkAndConfirm(r *RunResult, tmp string) (string, string) {
-	v, _ := r.Failing()
+	v, _ := r.FailingUnknown(loadKnown(c.root), c.prop)
+	if v.Rule == "" {
+		v, _ = r.Failing()
+	}
 	rf := &ReplayFile{Property: c.prop, World: r.World, Rule: v.Rule, Feature: v.Feature, Detail: v.Detail, Seed: r.Seed, Tier: c.tier,
 		GenVals: r.GenVals, SchedVals: r.SchedVals, TraceHash: r.TraceHash, Case: r.Case, Trace: r.Trace, Notes: r.Notes,
 		TreeHash: c.treeHash, Toolchain: runtime.Version()}
@@ -515,8 +538,7 @@ func (c *runnerCfg) confirm(path, rule, tmp string) (bool, string) {
 	if json.Unmarshal(b, &r) != nil {
 		return false, ""
 	}
-	v, bad := r.Failing()
-	return bad && v.Rule == rule, r.TraceHash
+	return r.HasRule(rule), r.TraceHash
 }
 
 // replay: re-run a replay file in a fresh process, twice, and compare.
